@@ -111,8 +111,15 @@ def self_requiring(rootname, rootnode, types):
     return False
 
 
+def empty_example_of_a_reference_root(case, reason):
+    """F06c: the checked schema is a bare reference or choice, and a plain mandatory cycle AMONG THE OTHER types is reached"""
+    g = case.line.split(' || ')[0].split(' ')
+    return len(g) > 3 and g[3].startswith('R')
+
+
 class Prop:
     id = 'C06'
+    known_matchers = {'empty_example_of_a_reference_root': empty_example_of_a_reference_root}
     level = 'proof'
     theorems_file = 'Properties/C06.v'
     exhaustive_note = ''
@@ -171,6 +178,24 @@ class Prop:
             cs.append(Case(self.mk(root, types, 'root'), 'exh-2prop-root'))
         self.exhaustive_note = ('all graphs over root + %d types with one property each over %d edge kinds, both registration styles; '
                                 'all graphs with a two-property root over 2 one-property types' % (ntypes, len(kinds)))
+        # the checked schema, or a type on the way, is not an object but a bare reference or a choice
+        tops = [('R', 0, 0, [1]), ('R', 0, 0, [2]), ('R', 0, 0, [1, 2]), ('R', 0, 1, [1]), ('A', 0, 0, [('R', 0, 0, [1])])]
+        k3 = prop_kinds([0, 1, 2])
+        for top, c1, c2 in itertools.product(tops, k3, k3):
+            for t1 in (('O', 0, 0, [c1]), (c1[0], 0) + tuple(c1[2:]) if c1[0] == 'R' and not c1[1] else None):
+                if t1 is None:
+                    continue
+                types = {1: t1, 2: ('O', 0, 0, [c2])}
+                for style in ('root', 'all'):
+                    cs.append(Case(self.mk(top, types, style), 'exh-root-is-a-reference'))
+        for k in range(1, 6):
+            # root = @t1, t1 -> t2 -> ... -> tk -> root
+            nodes = {i: ('O', 0, 0, [('L', 0, 0), ('R', 0, 0, [(i + 1) % (k + 1)])]) for i in range(1, k + 1)}
+            cs.append(Case(self.mk(('R', 0, 0, [1]), nodes, 'root'), 'chain-%d-from-a-reference-root' % k))
+            if k >= 2:
+                n2 = dict(nodes)
+                n2[2] = ('O', 0, 0, [('R', 0, 0, [0])])
+                cs.append(Case(self.mk(('R', 0, 0, [1, 2]), n2, 'root'), 'chain-%d-from-a-choice-root' % k))
         # long chains: root -> t1 -> ... -> tk -> root, with one link of each kind somewhere
         for k in range(1, 7):
             for weak in [None] + [(j, kind) for j in range(k + 1) for kind in ('opt', 'nul', 'arr')]:
@@ -254,6 +279,8 @@ class Prop:
         c = m.group(1)
         if c not in ('ok', '104'):
             return 'other ' + out
+        if c == 'ok' and m.group(2) == '-':
+            return 'check=ok ex=none'          # nothing written at all: the model's None at the top
         return out
 
     def nontrivial(self, c):
@@ -274,6 +301,8 @@ class Prop:
         if chk == 'ok':
             if ex.startswith('INVALIDJSON'):
                 return 'Example() of an accepted schema is not JSON: ' + ex[:120]
+            if ex == '-':
+                return 'Example() of an accepted schema is empty (no JSON value at all)'
             if ex.startswith('err') or ex == 'none':
                 return 'Example() of an accepted schema fails: ' + ex[:120]
         return None
